@@ -97,10 +97,12 @@ def alphabet(seed):
     if seed == 'flat':
         ops += [['upd_edge', list(e1), 7.0], ['upd_edge', ['dd/so/x', 'a/to/u'], -1.25],
                 ['add_matrix'], ['upd_edge', ['dd/so/x', 'cc/to/u'], 4.5],
-                ['derive_upd', list(e1), 9.5], ['derive_keep'], ['add_matrix_attr']]
+                ['derive_upd', list(e1), 9.5], ['derive_keep'], ['add_matrix_attr'],
+                ['derive0_upd', list(e1), 9.5], ['derive0_keep']]
     else:
         ops += [['upd_edge', ['c2/dd/so/x', 'c1/a/to/u'], -1.25], ['upd', 'c1/all/so/c', 0.7],
-                ['derive_upd', ['c2/dd/so/x', 'c1/a/to/u'], 9.5], ['derive_keep']]
+                ['derive_upd', ['c2/dd/so/x', 'c1/a/to/u'], 9.5], ['derive_keep'],
+                ['derive0_upd', ['c2/dd/so/x', 'c1/a/to/u'], 9.5], ['derive0_keep']]
     ops += [['apply_nv', f'{A}/so/k', 9.0], ['apply_nv', f'{D}/so/x', 0.77],
             # several entries that address the same variable: a wildcard first, then an exception (later entries win)
             ['apply_nv2', [[f'{ALL}/so/k', 5.0], [f'{B}/so/k', 7.0]]], ['apply_nv2', [[f'{B}/so/x', 0.21], [f'{ALL}/so/x', 0.31]]]]
@@ -206,11 +208,17 @@ def run_case(case):
             elif kind == 'upd_eop':
                 c.update_var(edge_vars=[(op[1][0], op[1][1], {f'eop/{op[2]}': op[3]})])
                 edges[tuple(op[1])][op[2]] = op[3]
-            elif kind in ('derive_upd', 'derive_keep'):
+            elif kind in ('derive_upd', 'derive_keep', 'derive0_upd', 'derive0_keep'):
                 # a circuit derived with an additional edge owns its edges: updating an inherited edge of the derived
                 # circuit leaves this one alone (derive_upd), and later updates of this one leave the derived one alone
                 new_edge = (f'{nodes[1]}/so/x', f'{nodes[-1]}/to/u', None, {'weight': 0.3})
-                d = c.update_template(edges=[new_edge])
+                if kind.startswith('derive0'):
+                    # derived without an edges argument (fixed 55c9d13: it shared the edge dicts of its base)
+                    new_edge = None
+                    d = c.update_template()
+                    kind = kind.replace('derive0', 'derive')
+                else:
+                    d = c.update_template(edges=[new_edge])
                 sig['features'] = sorted(set(sig['features']) | {'derived_circuit'})
                 if kind == 'derive_upd':
                     if tuple(op[1]) not in edges:
@@ -313,8 +321,9 @@ def run_case(case):
         if bad:
             return viol('derived_circuit_follows_parent', wrong=bad, history=case['history'])
         dedges = dict(dedges)
-        key = (new_edge[0], new_edge[1])
-        dedges[key] = {'weight': dedges.get(key, {'weight': 0.0})['weight'] + 0.3} if key in dedges else {'weight': 0.3}
+        if new_edge is not None:
+            key = (new_edge[0], new_edge[1])
+            dedges[key] = {'weight': dedges.get(key, {'weight': 0.0})['weight'] + 0.3} if key in dedges else {'weight': 0.3}
         for n in nodes:
             inc = [(s_, e) for (s_, t_), e in dedges.items() if t_ == f'{n}/to/u']
             u = sum(e['weight'] * dref[s_] for s_, e in inc) if inc else dref[f'{n}/to/u']
